@@ -45,6 +45,15 @@ SPECS = [
     'grammar e;\nAA = "x";\nBB = "x";\nstart = AA BB NUM;\n',
     'grammar f;\nstart = {"x"} {"x"} [{"x"}] ({"x"} | ["y"]);\n',
 ]
+# specifications whose definitions collide across specifications in one partial key (the same text once as a pattern and once as a
+# string, the same token name with different definitions, the same value under different names): anything remembered from an
+# earlier specification under such a key shows up here
+COLLIDING = [
+    'grammar g;\nANY = /./;\nPL = /a+/;\nstart = ANY PL;\n',
+    'grammar h;\nID = /[a-z]+/;\nstart = ID "." ID "a+";\n',
+    'grammar i;\nID = /[A-Z]+/;\nANY = "x";\nstart = ID ANY;\n',
+    'grammar j;\nPL = "+";\nstart = start "." | PL "a+" | ;\n',
+]
 PATTERNS = ["[a-z]+", "(ab|cd)*e", "[^0-9]", "\\d{2,3}", "[[:alpha:]_]\\w*", "(", "a{3,1}", "a{4,2})", "[z-a", "(b{2,1}", "[a-c]+x", "\\p{Nope}x)"]
 
 CASES_V = """(* GENERATED: hashStrings of the implementation vs the FNV-1 model of Emerge/Shared.v *)
@@ -173,7 +182,7 @@ def check(tier):
         rep.failure("hash-model", {"hash-model"}, {"request": hreqs[i], "response": hres[i]})
 
     # ---- sequential processing: every order gives the results of isolated (fresh-process) runs ----
-    specs = SPECS + [S.gen_wellformed(rng) for _ in range(2 if tier == "quick" else 6)]
+    specs = SPECS + COLLIDING + [S.gen_wellformed(rng) for _ in range(2 if tier == "quick" else 6)]
     iso = [C.hook_batch([{"op": "sequence", "texts": [t], "patterns": []}])[0] for t in specs]
     isop = [C.hook_batch([{"op": "sequence", "texts": [], "patterns": [p_]}])[0] for p_ in PATTERNS]
     base = {t: r["results"][0] for t, r in zip(specs, iso) if r.get("outcome") == "ok"}
